@@ -234,9 +234,17 @@ def run_case(case):
                         pass
     except Exception as e:
         r.count("history_raised")
-    # ---- B: same arguments, other seed
+    # ---- B: same arguments, other seed; for every other transform case also other constructor-given buffer VALUES of the same
+    #      shapes (another permutation, other affine constants, another coupling mask with the same number of transformed
+    #      features - what the library's random mask / permutation helpers give under another seed): they all travel in the
+    #      state dict
+    cfg_B = cfg
+    if kind == "transform" and (seed // 2) % 2 == 0:
+        cfg_B = zoo.reseed_cfg(cfg)
+        if cfg_B != cfg:
+            r.count("reloaded_into_other_buffer_values")
     try:
-        B = build(kind, cfg, seed + 7919)
+        B = build(kind, cfg_B, seed + 7919)
     except Exception as e:
         r.viol("construct", "%s cannot be constructed twice with the same arguments" % label, exc=repr(e)[:200], cfg=cfg)
         return r.done()
